@@ -155,6 +155,17 @@ def check(run):
     if run.tier == "thorough" or any(r.status != "ok" for r in run.reports) or run.undecided:
         shapes = [(2, 0, 1, 1), (3, 1, 2, 2), (2, 2, 0, 3), (1, 0, 1, 2), (3, 0, 2, 4), (4, 1, 1, 2)] if run.tier == "thorough" else [(3, 1, 2, 2), (2, 0, 1, 3)]
         native_sweep(run, shapes)
+    # physically tiny constants next to a |.| term (the library's real-valued differentiation path): every Jacobian entry relative to
+    # its OWN magnitude - a bare 6.6e-34 is a partial derivative like any other (the native is C08's)
+    from checks import C08
+
+    run.native_runs += 1
+    tp, tsc = C08.native_tiny_constant(run.seed)
+    tp = [p for p in tp if "jacobian" in p]
+    run.bounded.append({"what": "Jacobians of a model whose constants are physically tiny (6.7e-11 ... 6.6e-34, one row with a |.| term): each entry relative to its own magnitude, CSE on and off", "bound": "1 model x 2 CSE settings", "failures": len(tp), "counted_as_proved": False})
+    for p in tp[:1]:
+        run.findings.append(Finding("C03.py.native_tiny_constant", "tiny-constant", f"model with constants 6.674e-11 ... 6.6e-34: {p}", {"language": "python", "inputs": {"tiny_constant": True, "seed": run.seed}, "model_definition": tsc.describe(), "oracle_verdict": tp[:4]}, True))
+
     from checks.ekf_common import dtype_sweep, stateful_sweep
 
     dtype_sweep(run, "C03", ("jacobian",))
@@ -166,6 +177,10 @@ def replay_file(payload):
         from checks.ekf_common import replay_magnitude
 
         return replay_magnitude(payload["inputs"])
+    if payload["inputs"].get("tiny_constant"):
+        from checks import C08
+
+        return C08.replay_file(payload)
     if payload["inputs"].get("dtypes"):
         from checks.ekf_common import replay_dtypes
 
